@@ -48,8 +48,11 @@ import ffgen_c02 as G
 
 RULE = ("missing: random force fields (1-3 blocks, .ff / .itp with dangling interactions) x random residue graphs "
         "(paths, trees, one ring, 1-7 residues, up to 10 thorough) x 0-4 links that match some, all or none of the "
-        "residue edges; non-trivial when the graph has an edge; distinct = abstract case.  gate: random topologies, "
-        "distinct = abstract topology")
+        "residue edges; non-trivial when the graph has an edge; distinct = abstract case; plus ring-opening links with "
+        "[ !bonds ], links with ignored vermouth sections, other node keys / resids / nested residue names, by_atom_id links, "
+        "repeated calls in one process, > 20 links.  gate: random topologies, distinct = abstract topology; plus the complete "
+        "gen_coords with -c / -mc / -res starting structures (all / some residues), reordered [ molecules ] lines, counts up "
+        "to 25, virtual sites")
 WITHHELD = ("requested-edge-vanishes-after-atom-removal", "isolated-atom-inside-connected-residue-graph")
 
 
